@@ -293,6 +293,7 @@ def stage_comments(ctx: Ctx, progs):
         if rng.random() < 0.3:
             field = rng.choice([fl for fl in ('body', 'orelse', 'finalbody') if getattr(f.a, fl, None)] or [None])
         rec = {'src': src, 'stmt': repr(f), 'text': text, 'full': full, 'field': field}
+        f0_pos = (f.a.lineno, f.a.col_offset)
         before = ast.dump(root.a)
         try:
             f.put_line_comment(text, field, full)
@@ -313,7 +314,10 @@ def stage_comments(ctx: Ctx, progs):
             continue
         d = reparse_diffs(root)
         if d:
-            ctx.violation('comment-c01', 'source after put_line_comment does not parse to the live tree', {**rec, 'diffs': d, 'after': root.src})
+            from lib.edits import stmt_before_continuation_semicolon
+            orig = next((x for x in ast.walk(ast.parse(src)) if isinstance(x, ast.stmt) and (x.lineno, x.col_offset) == (f0_pos)), None)
+            sig = 'line-comment-put-before-continuation-semicolon' if orig is not None and field is None and stmt_before_continuation_semicolon(src, orig) else 'comment-c01'
+            ctx.violation(sig, 'source after put_line_comment does not parse to the live tree', {**rec, 'diffs': d, 'after': root.src})
 
 
 # ---- cut / put back, replace by self -------------------------------------------------------------------------------
